@@ -11,6 +11,9 @@ MPSTXT = ("NAME t\nOBJSENSE\n MAX\nROWS\n N obj\n L c1\n G c2\n E c3\nCOLUMNS\n 
           "RHS\n rhs c1 4 c2 1\n rhs c3 2\nRANGES\n rng c1 3\nBOUNDS\n UP bnd x 3\n MI bnd y\nENDATA\n")
 
 
+from store_common import Gen
+
+
 def leak_sites(err):
     """allocation sites (first library frame) of every leak record"""
     out = []
@@ -103,9 +106,56 @@ def main():
                          "CHG delrow 0" if m else "DUMP", "CHG delcol 0" if n else "DUMP", mkfile("r%s.lp" % cid, LPTXT[:7 * ck.rng.randint(0, 20)]) + "READPROB r%s.lp LP" % cid]
                 ck.rng.shuffle(extra)
                 add(cid, scr + "\n".join(extra[:6]) + "\nSOLVE EXACT P\nACCESS\n", "driver-outcomes+rejected")
+        # 3. long primal phase I: an equality LP with more rows than the eta file holds updates (100), so the basis is
+        #    refactored while phase I is still running (work vectors of the phase are re-created on that path)
+        for bi in range(3 if ck.thorough() else 1):
+            m_, n_ = 130 + 20 * bi, 260 + 40 * bi
+            x0 = [ck.rng.randint(0, 2) for _ in range(n_)]
+            rows_ = []
+            for i in range(m_):
+                js = sorted(set([i, (i * 7 + 3) % n_, m_ + i % (n_ - m_)] + [ck.rng.randrange(n_) for _ in range(2)]))
+                ent = [(j, F(ck.rng.choice([1, 2, 3, -1, -2]))) for j in js]
+                rows_.append(("E", sum(v * x0[j] for j, v in ent), F(0), ent))
+            big = mk("big%d" % bi, False, [(F(ck.rng.randint(0, 3)), F(0), INF) for _ in range(n_)], rows_)
+            for algo in "PD":
+                cid = "big%d%s" % (bi, algo)
+                add(cid, "CASE %s\n%s\nSOLVE EXACT %s\nACCESS\n" % (cid, lp_block(big), algo), "long-phase1")
         scripts = dict(cases)
         env = {"ASAN_OPTIONS": "detect_leaks=1:exitcode=99:abort_on_error=0", "QSX_SCRATCH": tmp}
         M, outs, crashes = run_cases("h_solve", cases, asan=True, per_case_timeout=120, env=env)
+        # 4. edit histories on API-built problems (harness h_store: every handle is freed at the end, then QSexactClear): random
+        #    histories of the C05/C06 generator, and histories that delete ALL rows / ALL columns and then add again (the name
+        #    tables are re-created on that path), each with solves in between
+        hcases = []
+        for hi in range(120 if ck.thorough() else 24):
+            g = Gen(ck.rng, "h0", tag="k%d_" % hi)
+            ops = g.load(ck.rng.randint(1, 5), ck.rng.randint(1, 5)) if hi % 2 else ["CREATE h0 p %s" % ck.rng.choice(["MIN", "MAX"])]
+            for t in range(ck.rng.randint(8, 30)):
+                ops += g.op()
+                if ck.rng.random() < 0.1:
+                    ops.append("SOLVE h0 %s" % ck.rng.choice(["PRIMAL", "DUAL"]))
+            hcases.append(("hist%d" % hi, "CASE hist%d\nRESET\n" % hi + "\n".join(ops) + "\n"))
+            kinds["hist%d" % hi] = "edit-history"
+        for di in range(16 if ck.thorough() else 8):
+            nr, nc = ck.rng.randint(1, 4), ck.rng.randint(1, 4)
+            ops = ["CREATE h0 p MIN"] + ["NEWCOL h0 %d 0 %s -" % (ck.rng.randint(-3, 3), ck.rng.choice(["inf", "5"])) for _ in range(nc)]
+            row = lambda k: "ADDROW h0 %d %s - %d%s" % (ck.rng.randint(1, 6), ck.rng.choice("LGE"), k, "".join(" %d %d" % (j, ck.rng.randint(1, 3)) for j in range(k)))
+            ops += [row(nc) for _ in range(nr)] + ["SOLVE h0 DUAL"]
+            if di % 2 == 0:
+                ops += ["DELROWS h0 %d %s" % (nr, " ".join(map(str, range(nr))))] if di % 4 == 0 else ["DELROW h0 0"] * nr
+                ops += [row(nc), row(nc), "SOLVE h0 PRIMAL", "Q h0 rownames"]
+            else:
+                ops += ["DELCOLS h0 %d %s" % (nc, " ".join(map(str, range(nc))))] if di % 4 == 1 else ["DELCOL h0 0"] * nc
+                ops += ["NEWCOL h0 1 0 4 -", "ADDCOL h0 2 0 3 - %d%s" % (nr, "".join(" %d 1" % i for i in range(nr))), "SOLVE h0 PRIMAL", "Q h0 colnames"]
+            ops += ["DELROW h0 0", "NEWROW h0 1 G -", "SOLVE h0 DUAL"]
+            hcases.append(("dall%d" % di, "CASE dall%d\nRESET\n" % di + "\n".join(ops) + "\n"))
+            kinds["dall%d" % di] = "delete-all-then-add"
+        cases += hcases
+        scripts.update(dict(hcases))
+        _, houts, hcr = run_cases("h_store", hcases, asan=True, per_case_timeout=120, env=env)
+        outs.update({c: 1 for c, _ in hcases})
+        crashes = crashes + hcr
+        harness_of = {c: "h_store" for c, _ in hcases}
         # leaking cases are grouped by their (truncated) fast stacks; up to `cap` representatives per group are
         # re-run alone with full unwinding so that the allocation site is a library frame
         env2 = {"ASAN_OPTIONS": "detect_leaks=1:exitcode=99:abort_on_error=0:fast_unwind_on_malloc=0", "QSX_SCRATCH": tmp}
@@ -118,7 +168,7 @@ def main():
         reps = [c for g in groups.values() for c in g[:cap]]
         from concurrent.futures import ThreadPoolExecutor
         with ThreadPoolExecutor(max_workers=16) as ex:
-            rer = list(ex.map(lambda c: run_harness("h_solve", scripts[c], timeout=300, asan=True, env=env2), reps))
+            rer = list(ex.map(lambda c: run_harness(harness_of.get(c, "h_solve"), scripts[c], timeout=300, asan=True, env=env2), reps))
         nleak = sum(len(g) for g in groups.values())
         ncrash = sum(1 for cid, rc, err in crashes if not ("LeakSanitizer" in err or "byte(s) leaked" in err or re.search(r"(?:Direct|Indirect) leak of", err)))
         ck.cov["crash_samples"] = [(cid, rc, re.sub(r"\s+", " ", err[:1500])) for cid, rc, err in crashes if not ("LeakSanitizer" in err or "byte(s) leaked" in err or re.search(r"(?:Direct|Indirect) leak of", err))][:4]
@@ -149,7 +199,8 @@ def main():
         shutil.rmtree(tmp, ignore_errors=True)
     ck.cov["rule"] = ("enumerated early-exit paths: every truncation position (quick: every 7th) and token mutation of a small LP and a small MPS file; LP families x "
                       "configurations with iteration limits (non-OPTIMAL exits of the exact driver at every level), rejected edits, invalid basis loads, unwritable targets, "
-                      "deletes, re-reads; each script ends with freeing every object and QSexactClear under LeakSanitizer (GMP on malloc); non-trivial = executed case; "
+                      "deletes, re-reads; an equality LP whose primal phase I outlasts the eta file (refactorization inside phase I); edit histories on API-built problems "
+                      "(random, and delete-all-rows / delete-all-columns then add again) with solves in between; each script ends with freeing every object and QSexactClear under LeakSanitizer (GMP on malloc); non-trivial = executed case; "
                       "distinct by (path kind, script)")
     ck.cov["evaluations"] = len(cases)
     ck.cov["path_kinds"] = hist
